@@ -162,3 +162,522 @@ Proof.
       destruct (inv_tid HI sh' Hin) as [b Hb]. exists b.
       rewrite find_ensure_arch, Hb. reflexivity.
 Qed.
+
+(** * The allocator *)
+
+(** The allocator half of [Inv]. *)
+Definition FreeOK (slots : list slot) (free : list nat) : Prop :=
+  NoDup free /\
+  forall i, In i free <-> exists g, nth_error slots i = Some (mkSlot g None).
+
+(** What a successful [alloc_batch sh start count slots free] returns. *)
+Record AllocSpec (sh : shape) (start count : nat) (slots slots' : list slot)
+       (free' : list nat) (ids : list eid) : Prop := mkAllocSpec {
+  as_len : length ids = count;
+  as_nodup : NoDup (map fst ids);
+  (* the k-th identifier's slot now points at row [start + k] of [sh] *)
+  as_new : forall k id, nth_error ids k = Some id ->
+      nth_error slots' (fst id) = Some (mkSlot (snd id) (Some (sh, start + k)));
+  (* the identifiers' slots were absent or inactive before *)
+  as_fresh : forall id s, In id ids -> nth_error slots (fst id) = Some s -> s_loc s = None;
+  (* all other slots are untouched *)
+  as_other : forall j, ~ In j (map fst ids) -> nth_error slots' j = nth_error slots j;
+  as_free : FreeOK slots' free'
+}.
+
+Lemma alloc_batch_spec sh count : forall start slots free,
+  FreeOK slots free ->
+  exists slots' free' ids,
+    alloc_batch sh start count slots free = Some (slots', free', ids) /\
+    AllocSpec sh start count slots slots' free' ids.
+Proof.
+  induction count as [|c IH]; intros start slots free [Hnd Hfr].
+  - exists slots, free, []. split; [reflexivity|].
+    constructor; cbn [map length]; auto.
+    + constructor.
+    + intros k id H; destruct k; discriminate.
+    + intros id s [].
+    + split; auto.
+  - destruct free as [|i fr].
+    + (* the free list is exhausted: the slot vector grows *)
+      cbn [alloc_batch]. eexists _, _, _. split; [reflexivity|].
+      remember (S c) as n eqn:En. clear En IH c.
+      constructor.
+      * rewrite map_length, seq_length. reflexivity.
+      * rewrite map_map. cbn [fst]. rewrite map_add_seq. apply seq_NoDup.
+      * intros k id Hk. apply nth_error_map_some in Hk as (x & Hx & <-). cbn [fst snd].
+        assert (Hkn : k < n).
+        { rewrite <- (seq_length n 0). apply nth_error_Some. congruence. }
+        rewrite nth_error_seq_lt in Hx by auto. inversion Hx; subst x.
+        rewrite nth_error_app2 by lia.
+        replace (length slots + k - length slots) with k by lia.
+        rewrite nth_error_map, nth_error_seq_lt by auto. reflexivity.
+      * intros id s Hin Hs. apply in_map_iff in Hin as (x & <- & _). cbn [fst] in Hs.
+        assert (length slots + x < length slots) by (apply nth_error_Some; congruence). lia.
+      * intros j Hj. rewrite map_map in Hj. cbn [fst] in Hj. rewrite map_add_seq in Hj.
+        rewrite in_seq in Hj.
+        destruct (Nat.ltb_spec j (length slots)) as [Hlt|Hge].
+        -- apply nth_error_app1; auto.
+        -- rewrite (proj2 (nth_error_None slots j)) by auto.
+           apply nth_error_None. rewrite app_length, map_length, seq_length. lia.
+      * split; [constructor|]. intros j; split; [intros []|]. intros [g Hg].
+        destruct (Nat.ltb_spec j (length slots)) as [Hlt|Hge].
+        -- rewrite nth_error_app1 in Hg by auto. apply (Hfr j). eauto.
+        -- rewrite nth_error_app2, nth_error_map in Hg by auto.
+           destruct (nth_error (seq 0 n) (j - length slots)); cbn in Hg; discriminate.
+    + (* reuse the slot at the front of the free list *)
+      assert (Hs : exists g, nth_error slots i = Some (mkSlot g None)).
+      { apply Hfr. left; reflexivity. }
+      destruct Hs as [g Hs].
+      cbn [alloc_batch]. rewrite Hs. cbn [obind s_gen].
+      set (slots1 := upd i (fun _ => mkSlot (gen_next g) (Some (sh, start))) slots).
+      assert (Hs1 : nth_error slots1 i = Some (mkSlot (gen_next g) (Some (sh, start)))).
+      { unfold slots1. rewrite nth_error_upd_same, Hs. reflexivity. }
+      assert (HF1 : FreeOK slots1 fr).
+      { inversion Hnd as [|? ? Hnin Hnd']; subst. split; auto.
+        intros j. split.
+        - intros Hj. assert (j <> i) by (intros ->; contradiction).
+          unfold slots1. rewrite nth_error_upd_other by auto. apply Hfr. right; auto.
+        - intros [g' Hg'].
+          destruct (Nat.eq_dec j i) as [->|Hne].
+          + rewrite Hs1 in Hg'. discriminate.
+          + unfold slots1 in Hg'. rewrite nth_error_upd_other in Hg' by auto.
+            assert (Hin : In j (i :: fr)) by (apply Hfr; eauto).
+            destruct Hin as [->|Hin]; [contradiction|auto]. }
+      destruct (IH (S start) slots1 fr HF1) as (sl & fr' & ids & Hal & Hsp).
+      rewrite Hal. exists sl, fr', ((i, gen_next g) :: ids). split; [reflexivity|].
+      destruct Hsp as [L ND NEW FR OTH FOK].
+      assert (Hi_notin : ~ In i (map fst ids)).
+      { intros Hin. apply in_map_iff in Hin as (id & Hfst & Hid).
+        assert (Hx : nth_error slots1 (fst id) =
+                     Some (mkSlot (gen_next g) (Some (sh, start)))) by (rewrite Hfst; auto).
+        specialize (FR id _ Hid Hx). discriminate. }
+      constructor.
+      * cbn [length]. f_equal. exact L.
+      * cbn [map fst]. constructor; auto.
+      * intros [|k] id Hk; cbn [nth_error] in Hk.
+        -- inversion Hk; subst id. cbn [fst snd]. rewrite (OTH i Hi_notin), Hs1.
+           rewrite Nat.add_0_r. reflexivity.
+        -- rewrite (NEW k id Hk). replace (S start + k) with (start + S k) by lia. reflexivity.
+      * intros id s [<-|Hin] Hs'.
+        -- cbn [fst] in Hs'. rewrite Hs in Hs'. inversion Hs'; reflexivity.
+        -- apply (FR id s Hin). unfold slots1. rewrite nth_error_upd_other; auto.
+           intros E. apply Hi_notin. rewrite <- E. apply in_map; auto.
+      * intros j Hj. cbn [map fst] in Hj. rewrite (OTH j) by (intros Hc; apply Hj; right; auto).
+        unfold slots1. apply nth_error_upd_other. intros E; apply Hj; left; auto.
+      * exact FOK.
+Qed.
+
+(** The free list after a batch allocation (not needed below; for later use). *)
+Lemma alloc_batch_free sh count : forall start slots free slots' free' ids,
+  alloc_batch sh start count slots free = Some (slots', free', ids) ->
+  free' = skipn (Nat.min count (length free)) free.
+Proof.
+  induction count as [|c IH]; intros start slots free slots' free' ids H.
+  - cbn in H. inversion H; reflexivity.
+  - destruct free as [|i fr]; cbn [alloc_batch] in H.
+    + inversion H; subst. rewrite skipn_nil. reflexivity.
+    + destruct (nth_error slots i) as [s|]; cbn [obind] in H; [|discriminate].
+      destruct (alloc_batch sh (S start) c
+                  (upd i (fun _ => mkSlot (gen_next (s_gen s)) (Some (sh, start))) slots) fr)
+        as [[[sl fr1] ids1]|] eqn:E; cbn [obind] in H; [|discriminate].
+      inversion H; subst. apply IH in E. subst free'. reflexivity.
+Qed.
+
+(** [alloc_one] is a batch of one. *)
+Lemma alloc_one_batch slots free sh start :
+  alloc_batch sh start 1 slots free =
+  match alloc_one slots free (sh, start) with
+  | Some (sl, fr, id) => Some (sl, fr, [id])
+  | None => None
+  end.
+Proof.
+  destruct free as [|i fr]; cbn [alloc_batch alloc_one].
+  - cbn [seq map]. rewrite !Nat.add_0_r. reflexivity.
+  - destruct (nth_error slots i); cbn [obind]; reflexivity.
+Qed.
+
+Lemma alloc_one_spec slots free sh start :
+  FreeOK slots free ->
+  exists slots' free' id,
+    alloc_one slots free (sh, start) = Some (slots', free', id) /\
+    AllocSpec sh start 1 slots slots' free' [id].
+Proof.
+  intros HF.
+  destruct (alloc_batch_spec sh 1 start slots free HF) as (sl & fr & ids & Hal & Hsp).
+  rewrite alloc_one_batch in Hal.
+  destruct (alloc_one slots free (sh, start)) as [[[sl' fr'] id]|]; [|discriminate].
+  inversion Hal; subst. eauto.
+Qed.
+
+Lemma Inv_FreeOK w : Inv w -> FreeOK (w_slots w) (w_free w).
+Proof. intros HI. split; [apply (inv_free_nodup HI) | apply (inv_free HI)]. Qed.
+
+Lemma alloc_spec_active sh start count slots' free' ids w w' :
+  AllocSpec sh start count (w_slots w) slots' free' ids ->
+  w_slots w' = slots' ->
+  forall id, In id ids -> is_active w id = false /\ is_active w' id = true.
+Proof.
+  intros [L ND NEW FR OTH FOK] Hw' id Hid. unfold is_active. split.
+  - destruct (nth_error (w_slots w) (fst id)) as [s|] eqn:E; auto.
+    rewrite (FR id s Hid E). reflexivity.
+  - apply In_nth_error in Hid as [k Hk]. rewrite Hw', (NEW k id Hk).
+    cbn [s_loc s_gen]. apply N.eqb_refl.
+Qed.
+
+(** * Appending freshly allocated rows to an archetype *)
+
+Lemma append_rows_inv w sh a count slots' free' ids (newrows : list row) len' :
+  Inv w ->
+  find_arch sh (w_archs w) = Some a ->
+  AllocSpec sh (length (a_rows a)) count (w_slots w) slots' free' ids ->
+  map fst newrows = ids ->
+  (forall rw, In rw newrows -> length (snd rw) = count_true sh) ->
+  len' = w_len w + length ids ->
+  Inv (with_store w (upd_arch sh (fun old => old ++ newrows) (w_archs w))
+                  (w_tid w) slots' free' len').
+Proof.
+  intros HI Ha [L ND NEW FR OTH [FND FIN]] Hmap Hvals Hlen.
+  pose proof (find_arch_shape _ _ Ha) as Hsha.
+  assert (Hfind : forall sh',
+             find_arch sh' (upd_arch sh (fun old => old ++ newrows) (w_archs w)) =
+             if shape_eqb sh' sh then Some (mkArch sh (a_rows a ++ newrows))
+             else find_arch sh' (w_archs w)).
+  { intros sh'. rewrite find_upd_arch, Ha. cbn [option_map]. rewrite Hsha. reflexivity. }
+  assert (Hnewrow : forall k rw, nth_error newrows k = Some rw ->
+                                 nth_error ids k = Some (fst rw)).
+  { intros k rw H. rewrite <- Hmap. exact (map_nth_error fst k newrows H). }
+  assert (Hact : forall i g loc, nth_error (w_slots w) i = Some (mkSlot g (Some loc)) ->
+                                 ~ In i (map fst ids)).
+  { intros i g loc Hs Hin. apply in_map_iff in Hin as (id & <- & Hid).
+    specialize (FR id _ Hid Hs). discriminate. }
+  constructor; cbn [with_store w_n w_archs w_tid w_slots w_free w_len].
+  - intros b Hb. apply In_upd_arch in Hb as (a0 & Ha0 & ->).
+    destruct (inv_shapes HI a0 Ha0) as [S1 S2].
+    destruct (shape_eqb (a_shape a0) sh) eqn:E.
+    + apply shape_eqb_eq in E. cbn [a_shape a_rows]. split; auto.
+      intros rw Hrw. apply in_app_or in Hrw as [Hrw|Hrw]; auto. rewrite E. auto.
+    + split; auto.
+  - rewrite map_shape_upd_arch. apply (inv_nodup HI).
+  - intros i g sh' r Hs.
+    destruct (in_dec Nat.eq_dec i (map fst ids)) as [Hin|Hnin].
+    + apply in_map_iff in Hin as (id & Hfst & Hid). apply In_nth_error in Hid as [k Hk].
+      pose proof (NEW k id Hk) as Hn. rewrite Hfst, Hs in Hn.
+      inversion Hn as [[Hg Hsh Hr]]. clear Hn. subst g sh' r.
+      rewrite <- Hmap in Hk. apply nth_error_map_some in Hk as (rw & Hrw & Hfrw).
+      exists (mkArch sh (a_rows a ++ newrows)), (snd rw). split.
+      * rewrite Hfind, shape_eqb_refl. reflexivity.
+      * cbn [a_rows]. rewrite nth_error_app2 by lia.
+        replace (length (a_rows a) + k - length (a_rows a)) with k by lia.
+        destruct rw as [id' v]. cbn [fst snd] in *. subst id'.
+        destruct id as [i' g']. cbn [fst snd] in *. subst i'. exact Hrw.
+    + rewrite (OTH i Hnin) in Hs.
+      destruct (@inv_fwd _ HI _ _ _ _ Hs) as (b & vals & Hb1 & Hb2).
+      rewrite Hfind. destruct (shape_eqb sh' sh) eqn:E.
+      * apply shape_eqb_eq in E. subst sh'. rewrite Ha in Hb1. inversion Hb1; subst b.
+        exists (mkArch sh (a_rows a ++ newrows)), vals. split; auto.
+        cbn [a_rows]. rewrite nth_error_app1; auto. apply nth_error_Some. congruence.
+      * exists b, vals. auto.
+  - intros sh' b r i g vals Hf Hr. rewrite Hfind in Hf.
+    destruct (shape_eqb sh' sh) eqn:E.
+    + apply shape_eqb_eq in E. subst sh'. inversion Hf; subst b. cbn [a_rows] in Hr.
+      destruct (Nat.ltb_spec r (length (a_rows a))) as [Hlt|Hge].
+      * rewrite nth_error_app1 in Hr by auto.
+        pose proof (@inv_bwd _ HI _ _ _ _ _ _ Ha Hr) as Hs.
+        rewrite (OTH i); auto. eapply Hact; eauto.
+      * rewrite nth_error_app2 in Hr by auto.
+        pose proof (Hnewrow _ _ Hr) as Hk. cbn [fst] in Hk.
+        pose proof (NEW _ _ Hk) as Hn. cbn [fst snd] in Hn. rewrite Hn.
+        repeat f_equal. lia.
+    + pose proof (@inv_bwd _ HI _ _ _ _ _ _ Hf Hr) as Hs.
+      rewrite (OTH i); auto. eapply Hact; eauto.
+  - exact FND.
+  - exact FIN.
+  - subst len'. rewrite (inv_len HI).
+    pose proof (total_rows_upd_arch sh (fun old => old ++ newrows) (w_archs w)
+                                    (inv_nodup HI) Ha) as Ht.
+    cbv beta in Ht. rewrite app_length in Ht.
+    assert (length newrows = length ids) by (rewrite <- Hmap, map_length; reflexivity).
+    lia.
+  - intros sh' Hin. destruct (inv_tid HI sh' Hin) as [b Hb]. rewrite Hfind.
+    destruct (shape_eqb sh' sh); eauto.
+Qed.
+
+(** * [do_reserve] *)
+
+Lemma do_reserve_cases w comps :
+  Inv w ->
+  do_reserve w comps = Some (w, ORejected, []) \/
+  exists archs1 tid1,
+    Inv (with_store w archs1 tid1 (w_slots w) (w_free w) (w_len w)) /\
+    do_reserve w comps =
+    Some (with_store w archs1 tid1 (w_slots w) (w_free w) (w_len w), ONone, []).
+Proof.
+  intros HI. unfold do_reserve.
+  destruct (negb (wf_comps (w_n w) comps)); [left; reflexivity|right].
+  destruct (ensure_for_entity_inv w (shape_of (w_n w) comps) HI (shape_of_length _ _))
+    as (archs1 & tid1 & a & Hens & Ha & HI1).
+  rewrite Hens. cbn [obind]. eauto.
+Qed.
+
+Theorem do_reserve_inv : forall w comps w' r evs,
+  Inv w -> do_reserve w comps = Some (w', r, evs) -> Inv w'.
+Proof.
+  intros w comps w' r evs HI H.
+  destruct (do_reserve_cases w comps HI) as [E|(archs1 & tid1 & HI1 & E)];
+    rewrite E in H; inversion H; subst; auto.
+Qed.
+
+Theorem do_reserve_safe : forall w comps, Inv w -> do_reserve w comps <> None.
+Proof.
+  intros w comps HI.
+  destruct (do_reserve_cases w comps HI) as [E|(archs1 & tid1 & HI1 & E)];
+    rewrite E; discriminate.
+Qed.
+
+Theorem do_reserve_n : forall w comps w' r evs,
+  do_reserve w comps = Some (w', r, evs) -> w_n w' = w_n w.
+Proof.
+  intros w comps w' r evs H. unfold do_reserve in H.
+  destruct (negb (wf_comps (w_n w) comps)); [inversion H; reflexivity|].
+  destruct (ensure_for_entity _ _ _) as [[archs1 tid1]|]; cbn [obind] in H; [|discriminate].
+  inversion H; reflexivity.
+Qed.
+
+(** * [do_insert] *)
+
+Lemma do_insert_cases w ent :
+  Inv w ->
+  do_insert w ent = Some (w, ORejected, []) \/
+  exists archs1 tid1 a slots1 free1 id,
+    let sh := shape_of (w_n w) (map fst ent) in
+    Inv (with_store w archs1 tid1 (w_slots w) (w_free w) (w_len w)) /\
+    find_arch sh archs1 = Some a /\
+    AllocSpec sh (length (a_rows a)) 1 (w_slots w) slots1 free1 [id] /\
+    do_insert w ent =
+    Some (with_store w (upd_arch sh (fun rows => rows ++ [(id, canon_vals sh ent)]) archs1)
+                     tid1 slots1 free1 (S (w_len w)), OId id, []).
+Proof.
+  intros HI. unfold do_insert.
+  destruct (negb (wf_comps (w_n w) (map fst ent))); [left; reflexivity|right].
+  set (sh := shape_of (w_n w) (map fst ent)).
+  destruct (ensure_for_entity_inv w sh HI (shape_of_length _ _))
+    as (archs1 & tid1 & a & Hens & Ha & HI1).
+  destruct (alloc_one_spec (w_slots w) (w_free w) sh (length (a_rows a)) (Inv_FreeOK w HI))
+    as (slots1 & free1 & id & Hal & Hsp).
+  exists archs1, tid1, a, slots1, free1, id. cbv zeta.
+  rewrite Hens. cbn [obind]. rewrite Ha. cbn [obind]. rewrite Hal. cbn [obind].
+  auto.
+Qed.
+
+Theorem do_insert_inv : forall w ent w' r evs,
+  Inv w -> do_insert w ent = Some (w', r, evs) -> Inv w'.
+Proof.
+  intros w ent w' r evs HI H.
+  destruct (do_insert_cases w ent HI)
+    as [E|(archs1 & tid1 & a & slots1 & free1 & id & HI1 & Ha & Hsp & E)];
+    rewrite E in H; inversion H; subst; auto.
+  set (sh := shape_of (w_n w) (map fst ent)) in *.
+  set (w1 := with_store w archs1 tid1 (w_slots w) (w_free w) (w_len w)) in *.
+  apply (append_rows_inv w1 sh a 1 slots1 free1 [id] [(id, canon_vals sh ent)]
+                         (S (w_len w)) HI1 Ha Hsp).
+  - reflexivity.
+  - intros rw [<-|[]]. apply canon_vals_length.
+  - cbn. lia.
+Qed.
+
+Theorem do_insert_safe : forall w ent, Inv w -> do_insert w ent <> None.
+Proof.
+  intros w ent HI.
+  destruct (do_insert_cases w ent HI)
+    as [E|(archs1 & tid1 & a & slots1 & free1 & id & HI1 & Ha & Hsp & E)];
+    rewrite E; discriminate.
+Qed.
+
+Theorem do_insert_n : forall w ent w' r evs,
+  do_insert w ent = Some (w', r, evs) -> w_n w' = w_n w.
+Proof.
+  intros w ent w' r evs H. unfold do_insert in H.
+  destruct (negb (wf_comps (w_n w) (map fst ent))); [inversion H; reflexivity|].
+  destruct (ensure_for_entity _ _ _) as [[archs1 tid1]|]; cbn [obind] in H; [|discriminate].
+  destruct (find_arch _ archs1) as [a|]; cbn [obind] in H; [|discriminate].
+  destruct (alloc_one _ _ _) as [[[slots1 free1] id]|]; cbn [obind] in H; [|discriminate].
+  inversion H; reflexivity.
+Qed.
+
+Theorem do_insert_fresh : forall w ent w' id evs,
+  Inv w -> do_insert w ent = Some (w', OId id, evs) ->
+  is_active w id = false /\ is_active w' id = true.
+Proof.
+  intros w ent w' id evs HI H.
+  destruct (do_insert_cases w ent HI)
+    as [E|(archs1 & tid1 & a & slots1 & free1 & id' & HI1 & Ha & Hsp & E)];
+    rewrite E in H; inversion H; subst.
+  eapply alloc_spec_active; [exact Hsp|reflexivity|left; reflexivity].
+Qed.
+
+(** * [do_extend] *)
+
+Lemma do_extend_cases w comps rows0 :
+  Inv w ->
+  do_extend w comps rows0 = Some (w, ORejected, []) \/
+  exists archs1 tid1 a slots1 free1 ids,
+    let sh := shape_of (w_n w) comps in
+    let rows := batch_rows comps rows0 in
+    Inv (with_store w archs1 tid1 (w_slots w) (w_free w) (w_len w)) /\
+    find_arch sh archs1 = Some a /\
+    AllocSpec sh (length (a_rows a)) (length rows) (w_slots w) slots1 free1 ids /\
+    do_extend w comps rows0 =
+    Some (with_store w
+            (upd_arch sh
+               (fun old => old ++ map (fun p => (fst p, canon_vals sh (combine comps (snd p))))
+                                      (combine ids rows)) archs1)
+            tid1 slots1 free1 (w_len w + length rows), OIds ids, []).
+Proof.
+  intros HI. unfold do_extend.
+  destruct (negb (wf_comps (w_n w) comps &&
+                  forallb (fun r => Nat.eqb (length r) (length comps)) rows0));
+    [left; reflexivity|right].
+  set (sh := shape_of (w_n w) comps).
+  set (rows := batch_rows comps rows0).
+  destruct (ensure_for_entity_inv w sh HI (shape_of_length _ _))
+    as (archs1 & tid1 & a & Hens & Ha & HI1).
+  destruct (alloc_batch_spec sh (length rows) (length (a_rows a)) (w_slots w) (w_free w)
+                             (Inv_FreeOK w HI))
+    as (slots1 & free1 & ids & Hal & Hsp).
+  exists archs1, tid1, a, slots1, free1, ids. cbv zeta.
+  rewrite Hens. cbn [obind]. rewrite Ha. cbn [obind]. rewrite Hal. cbn [obind].
+  auto.
+Qed.
+
+Theorem do_extend_inv : forall w comps rows w' r evs,
+  Inv w -> do_extend w comps rows = Some (w', r, evs) -> Inv w'.
+Proof.
+  intros w comps rows0 w' r evs HI H.
+  destruct (do_extend_cases w comps rows0 HI)
+    as [E|(archs1 & tid1 & a & slots1 & free1 & ids & HI1 & Ha & Hsp & E)];
+    rewrite E in H; inversion H; subst; auto.
+  set (sh := shape_of (w_n w) comps) in *.
+  set (rows := batch_rows comps rows0) in *.
+  set (w1 := with_store w archs1 tid1 (w_slots w) (w_free w) (w_len w)) in *.
+  pose proof (as_len _ _ _ _ _ _ _ Hsp) as L.
+  apply (append_rows_inv w1 sh a (length rows) slots1 free1 ids
+           (map (fun p => (fst p, canon_vals sh (combine comps (snd p)))) (combine ids rows))
+           (w_len w + length rows) HI1 Ha Hsp).
+  - rewrite map_map. cbn [fst]. apply map_fst_combine. exact L.
+  - intros rw Hrw. apply in_map_iff in Hrw as (p & <- & _). cbn [snd].
+    apply canon_vals_length.
+  - cbn. lia.
+Qed.
+
+Theorem do_extend_safe : forall w comps rows, Inv w -> do_extend w comps rows <> None.
+Proof.
+  intros w comps rows0 HI.
+  destruct (do_extend_cases w comps rows0 HI)
+    as [E|(archs1 & tid1 & a & slots1 & free1 & ids & HI1 & Ha & Hsp & E)];
+    rewrite E; discriminate.
+Qed.
+
+Theorem do_extend_n : forall w comps rows w' r evs,
+  do_extend w comps rows = Some (w', r, evs) -> w_n w' = w_n w.
+Proof.
+  intros w comps rows0 w' r evs H. unfold do_extend in H.
+  destruct (negb _); [inversion H; reflexivity|].
+  destruct (ensure_for_entity _ _ _) as [[archs1 tid1]|]; cbn [obind] in H; [|discriminate].
+  destruct (find_arch _ archs1) as [a|]; cbn [obind] in H; [|discriminate].
+  destruct (alloc_batch _ _ _ _ _) as [[[slots1 free1] ids]|]; cbn [obind] in H; [|discriminate].
+  inversion H; reflexivity.
+Qed.
+
+Theorem do_extend_ids : forall w comps rows w' ids evs,
+  Inv w -> do_extend w comps rows = Some (w', OIds ids, evs) ->
+  length ids = length (batch_rows comps rows) /\ NoDup ids /\
+  (forall id, In id ids -> is_active w id = false /\ is_active w' id = true).
+Proof.
+  intros w comps rows0 w' ids evs HI H.
+  destruct (do_extend_cases w comps rows0 HI)
+    as [E|(archs1 & tid1 & a & slots1 & free1 & ids' & HI1 & Ha & Hsp & E)];
+    rewrite E in H; inversion H; subst.
+  split; [|split].
+  - apply (as_len _ _ _ _ _ _ _ Hsp).
+  - apply (NoDup_map_inv fst). apply (as_nodup _ _ _ _ _ _ _ Hsp).
+  - intros id Hid. eapply alloc_spec_active; [exact Hsp|reflexivity|exact Hid].
+Qed.
+
+(** * [do_shrink] *)
+
+Theorem do_shrink_inv : forall w w' r evs,
+  Inv w -> do_shrink w = Some (w', r, evs) -> Inv w'.
+Proof.
+  intros w w' r evs HI H. unfold do_shrink in H. inversion H; subst; clear H.
+  set (p := fun a : arch => negb (is_nil (a_rows a))).
+  pose proof (inv_nodup HI) as ND.
+  assert (Hkeep : forall sh a rw k, find_arch sh (w_archs w) = Some a ->
+                    nth_error (a_rows a) k = Some rw ->
+                    find_arch sh (filter p (w_archs w)) = Some a).
+  { intros sh a rw k Ha Hk. rewrite find_arch_filter, Ha by auto.
+    unfold p. destruct (a_rows a); [destruct k; discriminate|reflexivity]. }
+  assert (Hsub : forall sh a, find_arch sh (filter p (w_archs w)) = Some a ->
+                              find_arch sh (w_archs w) = Some a).
+  { intros sh a Ha. rewrite find_arch_filter in Ha by auto.
+    destruct (find_arch sh (w_archs w)) as [b|]; [|discriminate].
+    destruct (p b); [auto|discriminate]. }
+  constructor; cbn [with_store w_n w_archs w_tid w_slots w_free w_len].
+  - intros a Ha. apply filter_In in Ha as [Ha _]. apply (inv_shapes HI); auto.
+  - apply NoDup_map_filter; auto.
+  - intros i g sh k Hs.
+    destruct (@inv_fwd _ HI _ _ _ _ Hs) as (a & vals & Ha1 & Ha2).
+    exists a, vals. split; auto. eapply Hkeep; eauto.
+  - intros sh a k i g vals Ha Hk. apply Hsub in Ha. eapply (inv_bwd HI); eauto.
+  - apply (inv_free_nodup HI).
+  - apply (inv_free HI).
+  - unfold p. rewrite total_rows_filter_nonempty. apply (inv_len HI).
+  - intros sh Hin. apply filter_In in Hin as [Hin Hmem].
+    destruct (inv_tid HI sh Hin) as [a Ha]. exists a.
+    rewrite find_arch_filter, Ha by auto.
+    destruct (p a) eqn:Ep; auto. exfalso.
+    apply negb_true_iff in Hmem.
+    assert (Hm : mem_shape sh (map a_shape (filter (fun a => is_nil (a_rows a)) (w_archs w)))
+                 = true).
+    { apply mem_shape_In. rewrite <- (find_arch_shape _ _ Ha). apply in_map.
+      apply filter_In. split; [eapply find_arch_In; eauto|].
+      unfold p in Ep. apply negb_false_iff in Ep. exact Ep. }
+    congruence.
+Qed.
+
+Theorem do_shrink_n : forall w w' r evs,
+  do_shrink w = Some (w', r, evs) -> w_n w' = w_n w.
+Proof. intros w w' r evs H. unfold do_shrink in H. inversion H; reflexivity. Qed.
+
+(** * [do_res_set] *)
+
+Theorem do_res_set_inv : forall w i v w' r evs,
+  Inv w -> do_res_set w i v = Some (w', r, evs) -> Inv w'.
+Proof.
+  intros w i v w' r evs HI H. unfold do_res_set in H.
+  destruct (nth_error (w_res w) i); inversion H; subst; auto.
+  destruct HI as [I1 I2 I3 I4 I5 I6 I7 I8]. constructor; cbn; auto.
+Qed.
+
+Theorem do_res_set_n : forall w i v w' r evs,
+  do_res_set w i v = Some (w', r, evs) -> w_n w' = w_n w.
+Proof.
+  intros w i v w' r evs H. unfold do_res_set in H.
+  destruct (nth_error (w_res w) i); inversion H; reflexivity.
+Qed.
+
+Print Assumptions do_insert_inv.
+Print Assumptions do_insert_safe.
+Print Assumptions do_extend_inv.
+Print Assumptions do_extend_safe.
+Print Assumptions do_reserve_inv.
+Print Assumptions do_reserve_safe.
+Print Assumptions do_shrink_inv.
+Print Assumptions do_res_set_inv.
+Print Assumptions do_insert_n.
+Print Assumptions do_extend_n.
+Print Assumptions do_reserve_n.
+Print Assumptions do_shrink_n.
+Print Assumptions do_res_set_n.
+Print Assumptions do_insert_fresh.
+Print Assumptions do_extend_ids.
